@@ -59,6 +59,7 @@ structure Sess where
   r : Int := 0
   d : Int := 0
   lastList : List String := []    -- the most recently accepted endpoint list
+  shadow : Option St := none      -- the model run on the whole history of the episode, never dropped: what the history determines
   downAt : List (String × Int) := []   -- when each endpoint's current recovery window began (creation, or the report that took it down)
   deriving Inhabited
 
@@ -153,9 +154,9 @@ def handle (sess : Sess) (rep : Report) (ln : Nat) (toks : List String) (obs : S
       | some s =>
         let mine := s!"ok ; {digest s}"
         if mine == obs then
-          ({ model := some s, impl := parseDigest r d dig, monitored := r ≥ 0 && d ≥ 0, r := r, d := d, lastList := decList (arg a "eps"),
+          ({ model := some s, shadow := some s, impl := parseDigest r d dig, monitored := r ≥ 0 && d ≥ 0, r := r, d := d, lastList := decList (arg a "eps"),
              downAt := (decList (arg a "eps")).map fun id => (id, 0) }, rep)
-        else ({ model := none, impl := parseDigest r d dig, monitored := r ≥ 0 && d ≥ 0, r := r, d := d, lastList := decList (arg a "eps"),
+        else ({ model := none, shadow := some s, impl := parseDigest r d dig, monitored := r ≥ 0 && d ≥ 0, r := r, d := d, lastList := decList (arg a "eps"),
                 downAt := (decList (arg a "eps")).map fun id => (id, 0) },
               { rep.msg s!"DIVERGE line={ln} model={mine} impl={obs}" with diverged := rep.diverged + 1 })
     | _, _ => (sess, rep.msg s!"BAD line={ln}")
@@ -183,6 +184,18 @@ def handle (sess : Sess) (rep : Report) (ln : Nat) (toks : List String) (obs : S
             else rep
           (interesting rep pre op post, reports)
         | _, _, _ => (rep.msg s!"UNPARSED line={ln} obs={obs}", sess.reports)
+      -- C13/C14: Current() is a function of the history (reports, lists, clock, timers fired): the model
+      -- run on the whole history — kept also after the implementation's table has diverged from it —
+      -- says which endpoint that is
+      let shadow' := sess.shadow.map fun s => (step s op).1
+      let rep := match shadow', implPost with
+        | some sh, some post =>
+          if sess.monitored && sh.current != post.current then
+            { (rep.msg s!"MONITOR property=C13 clause=current_by_history line={ln}").msg s!"MONITOR property=C14 clause=current_by_history line={ln}"
+              with monitorFails := rep.monitorFails + 2 }
+          else rep
+        | _, _ => rep
+      let sess := { sess with shadow := shadow' }
       let downAt := match sess.impl, implPost, parseOut outS with
         | some pre, some post, some o => updDown sess.downAt pre post op o
         | _, _, _ => sess.downAt
